@@ -933,6 +933,18 @@ M('C15', '_qr_theta_Y0 drops the gauged copy (original defect)', TR,
   "            Y0 = Y0.gauge_total_charge('vL', old_qtotal_R)", "            Y0.gauge_total_charge('vL', old_qtotal_R)",
   'TRUNC-value-dropped')
 
+M('C19', 'mps2lat_idx shift by sites per ring (rounded) (round-3 seed a)', LAT,
+  "                lat[..., 0] += (i0 - i) * self.N_rings // self.N_sites\n",
+  "                sites_per_ring = self.N_sites // self.N_rings\n                lat[..., 0] += (i0 - i) // sites_per_ring\n",
+  'GEOM-exact-div')
+M('C19', 'mps2lat_idx shift: number of unit cells first (equivalent)', LAT,
+  "                lat[..., 0] += (i0 - i) * self.N_rings // self.N_sites\n",
+  "                lat[..., 0] += ((i0 - i) // self.N_sites) * self.N_rings\n", None, expect='silent')
+M('C19', 'HelicalLattice.enlarge: _set_Ls only when Ls changed (round-3 seed b)', LAT,
+  "        self._set_Ls(self.regular_lattice.Ls)\n        order_reg = self.regular_lattice.order",
+  "        if self.Ls != self.regular_lattice.Ls:\n            self._set_Ls(self.regular_lattice.Ls)\n        order_reg = self.regular_lattice.order",
+  'GEOM-derived-refresh')
+
 # ---------------------------------------------------------------- C16 / C19
 M('C16', 'GMRES restart: relative residual norm used for normalisation (round-3 seed b)', KRY,
   """        self.total_error.append([npc.norm(self.rs[-1]) / self.b_norm])
